@@ -299,6 +299,9 @@ func (f *File) Name() string {
 }
 
 func (f *File) Close() error {
+	if f == nil {
+		return os.ErrInvalid // like *os.File
+	}
 	if !f.sim() {
 		return f.File.Close()
 	}
@@ -310,6 +313,9 @@ func (f *File) Close() error {
 }
 
 func (f *File) Read(b []byte) (int, error) {
+	if f == nil {
+		return 0, os.ErrInvalid // like *os.File
+	}
 	if !f.sim() {
 		return f.File.Read(b)
 	}
@@ -336,6 +342,9 @@ func (f *File) Read(b []byte) (int, error) {
 }
 
 func (f *File) Write(b []byte) (int, error) {
+	if f == nil {
+		return 0, os.ErrInvalid // like *os.File
+	}
 	if !f.sim() {
 		return f.File.Write(b)
 	}
@@ -384,6 +393,9 @@ func (f *File) Write(b []byte) (int, error) {
 func (f *File) WriteString(s string) (int, error) { return f.Write([]byte(s)) }
 
 func (f *File) Seek(off int64, whence int) (int64, error) {
+	if f == nil {
+		return 0, os.ErrInvalid // like *os.File
+	}
 	if !f.sim() {
 		return f.File.Seek(off, whence)
 	}
@@ -402,6 +414,9 @@ func (f *File) Seek(off int64, whence int) (int64, error) {
 }
 
 func (f *File) Sync() error {
+	if f == nil {
+		return os.ErrInvalid // like *os.File
+	}
 	if !f.sim() {
 		return f.File.Sync()
 	}
@@ -412,6 +427,9 @@ func (f *File) Sync() error {
 }
 
 func (f *File) Truncate(size int64) error {
+	if f == nil {
+		return os.ErrInvalid // like *os.File
+	}
 	if !f.sim() {
 		return f.File.Truncate(size)
 	}
@@ -454,6 +472,9 @@ func nodeInfo(n *node) info {
 }
 
 func (f *File) Stat() (fs.FileInfo, error) {
+	if f == nil {
+		return nil, os.ErrInvalid // like *os.File
+	}
 	if !f.sim() {
 		return f.File.Stat()
 	}
@@ -461,6 +482,9 @@ func (f *File) Stat() (fs.FileInfo, error) {
 }
 
 func (f *File) ReadDir(n int) ([]fs.DirEntry, error) {
+	if f == nil {
+		return nil, os.ErrInvalid // like *os.File
+	}
 	if !f.sim() {
 		return f.File.ReadDir(n)
 	}
